@@ -32,6 +32,7 @@ int Futex::wake_one() noexcept {
       }
     }
   }
+  BABYLON_VERIF_POINT("cofutex:wake_one_unlocked");
   // Resume when remove one node and get it's ownership successfully
   if (node) {
     node->promise->resume(node->handle);
@@ -66,11 +67,13 @@ int Futex::wake_all() noexcept {
       }
     }
   }
+  BABYLON_VERIF_POINT("cofutex:wake_all_unlocked");
   // Resume when remove nodes and get their ownership successfully.
   int waked = 0;
   for (auto node = head; node != nullptr; node = node->next) {
     node->promise->resume(node->handle);
     box.finish_released(node->id);
+    BABYLON_VERIF_POINT("cofutex:wake_all_finished_node");
     waked++;
   }
   return waked;
